@@ -68,6 +68,8 @@ WANTED = [
     ("src/buint/cast.rs", None, "cast_down", "cast_down"),
     # a function of a macro that is instantiated for several PRIMITIVE integer types: fifth component =
     # (macro name, regex of its parameter list, the metavariable of the primitive type, regex every instantiating type must match)
+    ("src/buint/cast.rs", r"impl\s*<\s*const\s+N\s*:\s*usize\s*>\s*CastFrom\s*<\s*\$ty\s*>\s*for\s*\$BUint\s*<\s*N\s*>", "cast_from", "as_buint",
+     ("as_buint", r"\(\s*\$BUint\s*:\s*ident\s*,\s*\$Digit\s*:\s*ident\s*;\s*\$\(\s*\$ty\s*:\s*ty\s*\)\s*,\s*\*\s*\)", "$ty", r"[ui](8|16|32|64|128|size)")),
     ("src/buint/convert.rs", r"impl\s*<\s*const\s+N\s*:\s*usize\s*>\s*From\s*<\s*\$uint\s*>\s*for\s*\$BUint\s*<\s*N\s*>", "from", "from_uint",
      ("from_uint", r"\(\s*\$BUint\s*:\s*ident\s*,\s*\$Digit\s*:\s*ident\s*;\s*\$\(\s*\$uint\s*:\s*tt\s*\)\s*,\s*\*\s*\)", "$uint", r"u(8|16|32|64|128|size)")),
 ]
@@ -108,7 +110,7 @@ GROUPS = {
     "C06": ["bitand", "bitor", "bitxor", "not_", "eq_", "cmp", "count_ones", "count_zeros", "leading_zeros", "trailing_zeros",
             "leading_ones", "trailing_ones", "is_power_of_two", "is_zero", "is_one", "from_digit", "digits", "from_digits", "bit",
             "set_bit", "power_of_two", "bits", "checked_next_power_of_two"],
-    "C09": ["cast_up", "cast_down"],
+    "C09": ["cast_up", "cast_down", "as_buint"],
     "C13": ["from_uint"],
     "C08": ["overflowing_pow", "checked_pow", "wrapping_pow", "checked_ilog2", "iilog", "checked_ilog10", "checked_ilog"],
     "C03": ["div_rem_digit", "last_digit_index", "checked_next_multiple_of"],
@@ -189,7 +191,7 @@ class LP(_dig.P):
     def __init__(self, toks, selfty="buint", prim=None):
         _dig.P.__init__(self, toks)
         self.selfty = selfty           # what `Self` means in the file being parsed
-        self.prim = prim               # the macro metavariable that stands for an unsigned primitive integer type ($uint)
+        self.prim = prim               # the macro metavariable that stands for a primitive integer type ($uint, $ty)
 
     def eat(self, x=None):
         v = self.peek()
@@ -229,7 +231,7 @@ class LP(_dig.P):
             return "digits" if z == "N" else Arr("digits", z)
         name = self.ident()
         if self.prim is not None and name == self.prim:
-            return "PUint"
+            return "PInt"
         if name in ("usize", "bool", "ExpType", "Ordering"):
             return {"Ordering": "ordering"}.get(name, name)
         if name == "u32":
@@ -497,6 +499,9 @@ class LP(_dig.P):
             return ["blockx", self.block()]
         if v == "{":
             return ["blockx", self.block()]
+        if v == "<" and self.prim is not None and self.peek(1) == self.prim and self.peek(2) == ">" and self.peek(3) == "::":
+            self.eat(), self.eat(), self.eat(), self.eat()   # <$ty>::NAME
+            return ["path", [self.prim, self.ident()]]
         if v == "[":                                   # [e; M]: an array of M copies of e
             self.eat("[")
             e = self.expr()
@@ -574,7 +579,7 @@ def unify_size(x, y, what):
         die("type mismatch in %s: array of %s vs %s digits" % (what, x, y))
 
 
-INTS = ("Digit", "usize", "ExpType", "SDigit")
+INTS = ("Digit", "usize", "ExpType", "SDigit", "PInt")
 
 
 def is_int(t):
@@ -638,7 +643,7 @@ def coq_ty(t):
         return "(option %s)" % (inner if inner.startswith("(") or " " not in inner else "(" + inner + ")")
     if isinstance(t, tuple):
         return "(" + " * ".join(coq_ty(x) for x in t) + ")"
-    if isinstance(t, TVar) or t in INTS or t == "PUint":
+    if isinstance(t, TVar) or t in INTS:
         return "Z"
     if isinstance(t, Arr):
         return "list Z"
@@ -814,7 +819,7 @@ class Gen:
                 return p, "(ud w %s)" % v, dst
             if (src, dst) == ("bool", "Digit"):
                 return p, "(Z.b2z %s)" % v, dst
-            if (src, dst) == ("PUint", "Digit"):         # unsigned primitive -> digit: truncation / zero extension
+            if (src, dst) == ("PInt", "Digit"):         # primitive integer -> digit: truncation / zero or sign extension = the value mod 2^w
                 return p, "(ud w %s)" % v, dst
             self.die("unsupported cast %s as %s" % (show(src), show(dst)))
         if k == "bin":
@@ -1007,6 +1012,10 @@ class Gen:
                 p2, v2, t2 = self.ex(args[0], env)
                 unify(t2, "Digit", "argument of " + name)
                 return p + p2, "(%s w %s %s)" % ({"overflowing_add": "u_ovf_add", "overflowing_sub": "u_ovf_sub"}[name], v, v2), ("Digit", "bool")
+        if t0 == "PInt" and name == "wrapping_shr" and len(args) == 1:
+            p2, v2, t2 = self.ex(args[0], env)
+            unify(t2, "ExpType", "argument of wrapping_shr")
+            return p + p2, "(p_wrapping_shr pb %s %s)" % (v, v2), "PInt"
         if t0 == "ExpType" and name == "checked_sub" and len(args) == 1:
             p2, v2, t2 = self.ex(args[0], env)
             unify(t2, "ExpType", "argument of checked_sub")
@@ -1086,7 +1095,7 @@ class Gen:
                 return pre, "(ix_shr %s %s)" % (va, vb), t
             if t == "usize" and op == "<<":                # index arithmetic (`i << BIT_SHIFT`): unbounded, like `+`
                 return pre, "(ix_shl %s %s)" % (va, vb), t
-            if t == "PUint" and op == ">>":                # $uint >> s: s >= $uint::BITS panics
+            if t == "PInt" and op == ">>":                # $int >> s (on the value: floor division, i.e. arithmetic for a signed type); s >= BITS panics
                 x = self.tmp()
                 return pre + ["%s <- pshr pb %s %s ;;" % (x, va, vb)], x, t
             if t == "ExpType" and op == "<<":              # u32 << s: the bits shifted out are lost; s >= 32 panics
@@ -1283,7 +1292,7 @@ class Gen:
             # the loop state: the variables of the context that the body assigns, in a canonical order
             # (arrays, bools, digits, u32s, usizes; declaration order within a class) so that re-ordering
             # independent `let`s of different types in the source does not change the generated term
-            rank = {"buint": 0, "bint": 0, "digits": 0, "bool": 1, "Digit": 2, "SDigit": 2, "ExpType": 3, "usize": 4}
+            rank = {"buint": 0, "bint": 0, "digits": 0, "bool": 1, "Digit": 2, "SDigit": 2, "PInt": 2, "ExpType": 3, "usize": 4}
             asg = self.assigned(body)
             state = [n for n in env if n in asg]
             state = [n for _, _, n in sorted((rank.get((self.kind_of(env[n].ty) or rs(env[n].ty))
